@@ -36,6 +36,8 @@ def run(ctx):
     k = 3 if thorough else 1
     for j in range(4):
         payloads.append({"nsso": 60 * k, "nlambert": 160 * k, "nbplane": 80 * k, "nbeta": 60 * k, "seed": ctx.seed + 100 + j})
+        if j < 2:
+            payloads.append({"nlambert": 80 * k, "nbplane": 40 * k, "seed": ctx.seed + 200 + j, "body": ("sun", "moon")[j]})
     for res in ctx.harness_parallel("mission_replay.py", payloads, procs=12, timeout=3000):
         ctx.absorb(res)
     ctx.extra["walker_triples"] = nw
